@@ -7,7 +7,7 @@ import Generated.C14
 from which start state, in which order, and whether `</s>` is appended — under the regenerated
 `kSpaces` table for the fast path and Python's `bytes.split()` for the others.
 
-op  `s <hex|->`   →  `fast=B:w,w,E|TT=…|TF=…|FT=…|FF=…|fTT=…|fTF=…|fFT=…|fFF=…|stTT=…|…|ppl=<n>|py=w,w|sp=w,w`
+op  `s <hex|->`   →  `fast=B:w,w,E|TT=…|TF=…|FT=…|FF=…|fTT=…|…|stTT=…|…|q=w,w|qT=…|qF=…|ppl=<n>|py=w,w|sp=w,w`
 -/
 open KV KV.Proto KV.PyTokenize
 
@@ -46,8 +46,13 @@ def planLine (s : Bytes) : String :=
     let t := (M.statefulTotal s b e).map fun (h, w) => (h.map fun x => if x == codeWord [60,47,115,62] then 0 else x,
                                                        if w == codeWord [60,47,115,62] then 0 else w)
     "st" ++ flagsName b e ++ "=" ++ showTrace t
+  -- bin/query reads one sentence per line: only meaningful when the sentence has no '\n'
+  let q := if s.contains 10 then ["q=x", "qT=x", "qF=x"] else
+    ["q=" ++ showWords (queryWords (isDelim tbl) s),
+     "qT=" ++ showTrace ((M.queryFull tbl s true).flatMap (·.1.prob)),
+     "qF=" ++ showTrace ((M.queryFull tbl s false).flatMap (·.1.prob))]
   let ppl := "ppl=" ++ toString (M.perplexityArgs tbl s).2
-  "|".intercalate ([fast] ++ slow ++ full ++ st ++ [ppl, "py=" ++ showWords (pySplit s), "sp=" ++ showWords (splitSpaces tbl s)])
+  "|".intercalate ([fast] ++ slow ++ full ++ st ++ q ++ [ppl, "py=" ++ showWords (pySplit s), "sp=" ++ showWords (splitSpaces tbl s)])
 
 def step (u : Unit) (line : String) : Unit × String :=
   match words line with
